@@ -243,7 +243,7 @@ def _work(job):
     return acc.pack()
 
 
-def build_jobs(tier, seed0, d1=None, d2=None, two=True, dlm=None):
+def build_jobs(tier, seed0, d1=None, d2=None, two=True, dlm=None, light=False):
     jobs, subs = [], []
     d1 = d1 or (5 if tier == "quick" else 7)
     lv, npre = lc.leaves("SINPF", 1, d1)
@@ -282,7 +282,7 @@ def build_jobs(tier, seed0, d1=None, d2=None, two=True, dlm=None):
         jobs += [("hist", "two-objects", pr, h) for h in lv3]
     subs.append(("two objects: all interleavings to total depth %d (%d histories) x %d ordered kind pairs" % (d3, npre3, len(pairs)),
                  npre3 * len(pairs), len(lv3) * len(pairs)))
-    if tier == "thorough" and two:
+    if tier == "thorough" and two and not light:
         lv4, npre4 = lc.leaves("SINPF", 2, 5)
         pairs6 = [(KINDS[0], KINDS[0]), (KINDS[0], KINDS[5]), (KINDS[4], KINDS[1])]
         for pr in pairs6:
@@ -299,7 +299,7 @@ def build_jobs(tier, seed0, d1=None, d2=None, two=True, dlm=None):
                  "then iterate / iterate_n(0) / iterate_n(2) / run(0) on the completed simulation", len(exc), len(exc)))
     # model-based part: every path of TLC's state graph of spec/Lifecycle.tla is replayed on the implementation
     try:
-        mo = 5 if tier == "quick" else 6
+        mo = 5 if (tier == "quick" or light) else 6
         nodes, edges, init, summary = tlaconf.run_tlc(TLA_K, mo, "c10")
         allowed, npaths = tlaconf.paths_by_ops(nodes, edges, init)
         _TLA.clear()
